@@ -1,10 +1,7 @@
 (* Observation points O-lex / O-tree: text in, token stream and parse tree out. *)
 From MF Require Import Lib.Base Lib.Regex Lib.Codec Model.GrammarTypes Model.Lexer Model.LR
-  Model.Case Gen.Tokens Gen.Grammar.
+  Model.Case Model.Transformer Model.Api Gen.Tokens Gen.Grammar.
 Open Scope Z_scope.
-
-Definition the_hook : hook_conf :=
-  mk_hook T_UNQUOTED_STRING T_GRID T_UNQUOTED_STRING_VALUE SYMBOL_ATTRIBUTES upper.
 
 Definition zN (n : N) : Z := Z.of_N n.
 
@@ -41,6 +38,25 @@ Definition obs_parse (t : toks) : toks :=
           match r with
           | Ok po => 0 :: enc_tree (po_tree po) ++ enc_list enc_token (po_comments po)
           | Err e => 1 :: enc_exn e
+          end
+      | None => bad_input
+      end
+  | None => bad_input
+  end.
+
+(* payload: include_position, include_comments, text -> 0 + value | 1 + exception *)
+Definition obs_loads (t : toks) : toks :=
+  match dec_bool t with
+  | Some (ip, t1) =>
+      match dec_bool t1 with
+      | Some (ic, t2) =>
+          match dec_str t2 with
+          | Some (text, _) =>
+              match loads ip ic text with
+              | Ok v => 0 :: enc_value v
+              | Err e => 1 :: enc_exn e
+              end
+          | None => bad_input
           end
       | None => bad_input
       end
